@@ -79,7 +79,7 @@ theorem caseVertexOk_spec (g : BGraph) (del : List Nat) (w : Nat) (h : g.caseVer
   refine ⟨h0, ?_, ?_, ?_⟩
   · intro hm; rw [List.contains_iff_mem.mpr hm] at hd; cases hd
   · split at hv
-    · rename_i nm r l c a4 a6 a7 a8 heq
+    · rename_i nm r l c a4 a6 a7 a8 b1 b2 b3 b4 b5 b6 b7 heq
       exact ⟨r, _, l, c, heq, rfl, rfl, rfl, by simpa using hv⟩
     · cases hv
   · intro e he hs
